@@ -537,9 +537,11 @@ class Queue(Greenlet):
             try:
                 now = time.time()
                 self._check_ready(now)
-                self._wait_ready(now)
             finally:
                 self.queued_lock.release()
+            # Sleep without the lock: holding it here, and taking it again
+            # straight after releasing it, never let flush() acquire it.
+            self._wait_ready(now)
 
 
 # vim:et:fdm=marker:sts=4:sw=4:ts=4
